@@ -288,7 +288,8 @@ def gen_spec(seed, index, tier):
         except Exception:  # noqa: BLE001
             pass
     return {"property": PROP, "index": index, "seed": seed, "base": base, "steps": steps,
-            "cfg": {"bufsize": ops.choice([16, 512, 8192]), "chunk": ops.choice([1, 32, 8192])}}
+            "cfg": {"bufsize": ops.choice([16, 512, 8192]), "chunk": ops.choice([1, 32, 8192]),
+                    "bystander": ops.chance(0.35)}}
 
 
 def sample(spec):
@@ -487,6 +488,16 @@ def execute(spec, world):
     snap_prev, skip_prev = snap0, skip0
     L = observe.length_scale(snap0)
     tol_geo = 1e-12 * L
+    other = None
+    if spec.get("cfg", {}).get("bystander"):
+        # a second live shape of the same class, asked the same question first: two objects
+        # must not see each other's state (class-level caches, shared default containers)
+        with world.step(0, 1, use_fs=False):
+            try:
+                other = gen.build(gen.sibling(base))
+                C["runs_with_bystander"] += 1
+            except Exception:  # noqa: BLE001
+                other = None
     registry = []  # (step index, op name, path, reference, frozen copy)
     containers = []  # (step index, op name, reference to a returned dict/list, structure)
     prev = "^"
@@ -531,6 +542,19 @@ def execute(spec, world):
             C["args_unsynthesisable"] += 1
             log.add("step", si, qname, "skipped", type(e).__name__)
             continue
+        if other is not None and st["op"] != "io" and st["name"] not in ("save", "plot",
+                                                                          "to_plato_scene"):
+            try:
+                fn_o, _w = build_call(other, st)
+                with world.step(st["pyseed"] ^ 0x0B57, st["npseed"] ^ 0x0B57, use_fs=False):
+                    with warnings.catch_warnings():
+                        warnings.simplefilter("ignore")
+                        fn_o()
+                C["bystander_queries"] += 1
+            except BaseException as e:  # noqa: BLE001 - whatever the bystander answers
+                if isinstance(e, (KeyboardInterrupt, SystemExit)) or \
+                        type(e).__name__ == "HarnessTimeout":
+                    raise
         frozen = [(n, a, _freeze(a)) for n, a in watched]
         outcome, value, exc = "ok", None, None
         with world.step(st["pyseed"], st["npseed"], fs_plan=st.get("fs_faults"),
